@@ -32,6 +32,10 @@ class FaceSpanningTree(SpanningTree):
         self.edges = []
 
     def compute(self):
+        # start from empty tables, so that calling compute() again rebuilds the tree instead of appending to it
+        self.parent = [None]*len(self.mesh.faces)
+        self.children = [[] for v in self.mesh.id_faces]
+        self.edges = []
         dist_to_root = [float("inf") for v in self.mesh.id_faces]
         seen = [False for v in self.mesh.id_faces]
         queue = deque()
